@@ -1,18 +1,8 @@
 //! tcss-verif: property-based checks for taskchampion-sync-server (see /verif/DESIGN.md).
 
-mod case;
-mod driver;
-mod engine;
-mod hist;
-mod known;
-mod model;
-mod props;
-mod sched;
-mod sock;
-mod vfs;
-mod wrap;
 
-use engine::Tier;
+use tcss_verif::engine::Tier;
+use tcss_verif::{driver, props};
 
 fn usage() -> ! {
     eprintln!("usage: tcss-verif check <ID> [quick|thorough] | replay <file> | list");
